@@ -490,6 +490,23 @@ def _table(run, P):
                                     and cargs[1] == ("attr", P2, "statements") \
                                     and (cargs[2] == PRED if apr != se.NONE else cargs[2][0] == "fn")
                             ok = name_ok and next_ok and st_ok
+                            if name_ok and next_ok and not st_ok and st_t is not None:
+                                def mentions(t_, what):
+                                    return t_ == what or (isinstance(t_, tuple) and any(
+                                        mentions(x_, what) for x_ in t_))
+                                both = mentions(st_t, ("attr", P1, "statements")) and \
+                                    mentions(st_t, ("attr", P2, "statements"))
+                                other = not mentions(st_t, "disambiguate_and_fuse") and not any(
+                                    mentions(st_t, ("name", n_)) for n_ in (
+                                        "disambiguate_and_fuse",
+                                        "pymbolic.imperative.transform.disambiguate_and_fuse"))
+                                if both and other:
+                                    # both statement lists go into some other fusion (a fast
+                                    # path for phases without clashing names, say): whether
+                                    # that renames what it must is not decided by this table
+                                    raise AnalysisError(
+                                        f"fuse_two_phases: {case}: statements come from "
+                                        f"{se.show(st_t)[:60]}; not decided")
                         elif kind == "return" and differ is None:
                             ok = False
                             want = "a comparison of the default successors before fusing"
